@@ -212,6 +212,14 @@ func (st *StateTransition) TransitionDb() (ret []byte, usedGas uint64, failed bo
 		st.state.SetNonce(msg.From(), st.state.GetNonce(sender.Address())+1)
 		ret, st.gas, vmerr = evm.Call(sender, st.to(), st.data, st.gas, st.value)
 	}
+	// The in-tree EVM meters execution against the per-transaction budget and never consumes the gas handed to a
+	// frame, but every value-bearing CALL/CALLCODE still gives its callee the 2300 gas stipend, which comes back
+	// unused and is added to the caller's gas: the gas the EVM returns can exceed what the transaction bought.
+	// gasUsed() then underflowed and refundGas pushed the gas pool above uint64 - a panic during block execution
+	// for any transaction that makes about ten value transfers. Never hand back more than was bought.
+	if st.gas > st.initialGas {
+		st.gas = st.initialGas
+	}
 	if vmerr != nil {
 		log.Debug("VM returned with error", "err", vmerr)
 		// The only possible consensus-error would be if there wasn't
